@@ -109,11 +109,11 @@ func LeafForm(f, k int) *Leaf {
 	}
 	switch {
 	case f < 8:
-		return flagLike(machine.KFlag, "flag", fmt.Sprintf("F%d", k), f)
+		return flagLike(machine.KFlag, "flag", fmt.Sprintf("F%d", k)+OperandSuffix(k), f)
 	case f < 16:
-		return flagLike(machine.KTrainer, "defeated", fmt.Sprintf("T%d", k), f-8)
+		return flagLike(machine.KTrainer, "defeated", fmt.Sprintf("T%d", k)+OperandSuffix(k), f-8)
 	}
-	name := fmt.Sprintf("V%d", k)
+	name := fmt.Sprintf("V%d", k) + OperandSuffix(k)
 	op := "var(" + name + ")"
 	f -= 16
 	switch f {
@@ -131,4 +131,17 @@ func LeafForm(f, k int) *Leaf {
 		return &Leaf{Kind: machine.KVar, Name: name, Src: fmt.Sprintf("%s %s %d", op, syms[r], c), Rel: rels[r], Const: c}
 	}
 	return &Leaf{Kind: machine.KVar, Name: name, Src: fmt.Sprintf("%s %s value(%d)", op, syms[r], c), Rel: rels[r], Const: c, Strict: true}
+}
+
+// OperandSuffix varies the spelling of operand number k: operands are passed to the assembler verbatim, so an
+// operand may be an expression. Every fourth operand carries a '+' expression and every fourth one a '%'
+// (the assembler's modulo, and the printf verb character).
+func OperandSuffix(k int) string {
+	switch k % 4 {
+	case 2:
+		return " + 1"
+	case 3:
+		return " % 8"
+	}
+	return ""
 }
